@@ -28,7 +28,8 @@ def parseRes? (s : String) : Option Res :=
   | ["err", v] => v.toNat?.map .err
   | _ => none
 
-/-- `g` = get, `o<d>` / `e<d>` / `p<d>` = get_or_try_init whose initialiser adds `d` and returns Ok / Err / panics -/
+/-- `g` = get, `o<d>` / `e<d>` / `p<d>` = get_or_try_init whose initialiser adds `d` and returns Ok / Err / panics,
+`O<d>` / `P<d>` = get_or_init whose initialiser adds `d` and returns / panics -/
 def parseCall? (s : String) : Option Call :=
   match s.toList with
   | ['g'] => some .get
@@ -37,7 +38,9 @@ def parseCall? (s : String) : Option Call :=
     | none => none
     | some d =>
       if c = 'o' then some (.init ⟨.ok, d⟩) else if c = 'e' then some (.init ⟨.err, d⟩)
-      else if c = 'p' then some (.init ⟨.panic, d⟩) else none
+      else if c = 'p' then some (.init ⟨.panic, d⟩)
+      else if c = 'O' then Call.infallible ⟨.ok, d⟩ else if c = 'P' then Call.infallible ⟨.panic, d⟩
+      else none
   | [] => none
 
 /-- run one call on thread 0 -/
@@ -79,6 +82,13 @@ def step (st : St) : List String → St × String
   | ["cell.init", k, d] =>
     match st.sys, parseOKind? k, d.toNat? with
     | some s, some k, some d => let (s', o) := call s (.init ⟨k, d⟩); ({ sys := some s' }, o)
+    | _, _, _ => (st, "bad-op")
+  | ["cell.initinf", k, d] =>
+    match st.sys, parseOKind? k, d.toNat? with
+    | some s, some k, some d =>
+      match Call.infallible ⟨k, d⟩ with
+      | some c => let (s', o) := call s c; ({ sys := some s' }, o)
+      | none => if k = .err then (st, "bad-op") else (st, "unmodelled")
     | _, _, _ => (st, "bad-op")
   | ["cell.state"] =>
     match st.sys with
